@@ -10,6 +10,8 @@ package provider
 // by the verified acceptor (Model/Sweep.v accepts, Proofs/SweepProofs.v accepts_sound).
 
 import (
+	"path/filepath"
+	"os"
 	"context"
 	crand "crypto/rand"
 	"crypto/sha256"
@@ -68,33 +70,33 @@ func c17Top32(b []byte) uint32 {
 
 // ---- the environment ------------------------------------------------------------------------
 type c17Ev struct {
-	Epoch int     `json:"-"` // index of the swarm in force
-	T    int64    `json:"t"` // virtual microseconds
-	Kind string   `json:"ev"`
-	Keys []uint32 `json:"keys,omitempty"`
-	Up   bool     `json:"up,omitempty"`
-	Key  uint32   `json:"key,omitempty"`
-	Ok   bool     `json:"ok,omitempty"`
+	Epoch int      `json:"-"` // index of the swarm in force
+	T     int64    `json:"t"` // virtual microseconds
+	Kind  string   `json:"ev"`
+	Keys  []uint32 `json:"keys,omitempty"`
+	Up    bool     `json:"up,omitempty"`
+	Key   uint32   `json:"key,omitempty"`
+	Ok    bool     `json:"ok,omitempty"`
 }
 
 type c17Env struct {
-	mu      sync.Mutex
-	start   time.Time
-	netUp   bool
-	swarm   []peer.ID
-	k       int
-	self    peer.ID
-	addrs   []ma.Multiaddr
-	events  []c17Ev
-	keyID   map[string]uint32
-	peerID  map[peer.ID]uint32
-	routerL time.Duration
-	sendL   time.Duration
+	mu       sync.Mutex
+	start    time.Time
+	netUp    bool
+	swarm    []peer.ID
+	k        int
+	self     peer.ID
+	addrs    []ma.Multiaddr
+	events   []c17Ev
+	keyID    map[string]uint32
+	peerID   map[peer.ID]uint32
+	routerL  time.Duration
+	sendL    time.Duration
 	inFlight int
-	swarms  [][]peer.ID // every swarm that was in force, in order
-	unknown int // sends whose key or peer the harness does not know
-	nSent   int
-	nRouter int
+	swarms   [][]peer.ID // every swarm that was in force, in order
+	unknown  int         // sends whose key or peer the harness does not know
+	nSent    int
+	nRouter  int
 }
 
 func (e *c17Env) now() int64 { return int64(time.Since(e.start) / time.Microsecond) }
@@ -210,11 +212,11 @@ func (e *c17Env) selfAddrs() []ma.Multiaddr {
 
 // ---- a case ------------------------------------------------------------------------------------
 type c17Step struct {
-	Sleep  int64  `json:"sleep_s"`        // virtual seconds to sleep before the action
-	Act    string `json:"act"`            // start | force | once | stop | swarm | net | restart | addr | none
-	Keys   []int  `json:"keys,omitempty"` // indices into the key pool
-	Peers  []int  `json:"peers,omitempty"`
-	Up     bool   `json:"up,omitempty"`
+	Sleep int64  `json:"sleep_s"`        // virtual seconds to sleep before the action
+	Act   string `json:"act"`            // start | force | once | stop | swarm | net | restart | addr | none
+	Keys  []int  `json:"keys,omitempty"` // indices into the key pool
+	Peers []int  `json:"peers,omitempty"`
+	Up    bool   `json:"up,omitempty"`
 }
 
 type c17Case struct {
@@ -443,6 +445,22 @@ func c17Scenario(i int) (c17Case, string) {
 			{Sleep: 2 * 3600, Act: "none"}}
 		return c, "resume-after-restart"
 	}
+	if i == 6 {
+		// keys given while the node is OFFLINE (an outage longer than the offline delay) are stored only;
+		// the schedule is rebuilt from the keystore when the node is back online and they are advertised
+		// within one interval: the first keys bootstrap the node, the others fall into regions that
+		// are not scheduled yet
+		c.NKeys, c.NPeers, c.R = 48, 150, 2 // many narrow regions: the first four keys leave most of them unscheduled
+		c.OfflineDelayS = 600
+		c.Steps = []c17Step{{Act: "swarm", Peers: all(150)}, {Act: "net", Up: true},
+			{Sleep: 600, Act: "start", Keys: all(4)},
+			{Sleep: 600, Act: "net", Up: false},
+			{Sleep: 60, Act: "start", Keys: []int{4}}, // fails to be provided: the node notices the outage
+			{Sleep: 1800, Act: "start", Keys: all(48)[5:]},
+			{Sleep: 600, Act: "net", Up: true},
+			{Sleep: 3 * 3600, Act: "none"}}
+		return c, "started-while-offline"
+	}
 	c.NKeys, c.NPeers, c.R = 10, 40, 1
 	c.Steps = []c17Step{{Act: "swarm", Peers: all(40)}, {Act: "net", Up: true},
 		{Sleep: 600, Act: "start", Keys: all(10)},
@@ -458,6 +476,66 @@ type c17Result struct {
 	nSent   int
 	nRouter int
 	unknown int
+}
+
+// c17OfflineCatchUp is the clause "offline/online transitions, after which missed work is caught up" for
+// the keys the trace acceptor leaves out: a key first given to StartProviding while the network was down
+// (it is stored, not provided) and neither stopped nor given again since must be advertised within d
+// microseconds of the network coming back (unless the network goes down again, the provider is restarted
+// or the trace ends first).  Returns the keys that were not.
+func c17OfflineCatchUp(res c17Result, d int64) []uint32 {
+	up := false
+	kept := map[uint32]bool{}
+	pending := map[uint32]int64{} // key -> deadline (0: no deadline yet: the network is still down)
+	var late []uint32
+	for _, e := range res.events {
+		for k, dl := range pending {
+			if dl > 0 && e.T > dl {
+				late = append(late, k)
+				delete(pending, k)
+			}
+		}
+		switch e.Kind {
+		case "net":
+			up = e.Up
+			for k := range pending {
+				if up {
+					pending[k] = e.T + d
+				} else {
+					pending[k] = 0
+				}
+			}
+		case "start":
+			for _, k := range e.Keys {
+				if !up && !kept[k] {
+					pending[k] = 0
+				} else {
+					delete(pending, k) // given (again) while online: the trace acceptor takes it from here
+				}
+				kept[k] = true
+			}
+		case "stop":
+			for _, k := range e.Keys {
+				delete(pending, k)
+				delete(kept, k)
+			}
+		case "restart":
+			for k := range pending {
+				delete(pending, k)
+			}
+		case "sent":
+			if e.Ok {
+				delete(pending, e.Key)
+			}
+		}
+	}
+	for k, dl := range pending {
+		if dl > 0 && res.endUs > dl {
+			late = append(late, k)
+		}
+	}
+	sort.Slice(late, func(i, j int) bool { return late[i] < late[j] })
+	return late
 }
 
 func c17Run(t *testing.T, r *vfRand, c c17Case, keys []mh.Multihash, peers []peer.ID) (res c17Result) {
@@ -966,8 +1044,8 @@ func TestVerifC17(t *testing.T) {
 			c = c17Gen(r, 0)
 			scenario = fname
 		}
-		if i < 3 {
-			// three fixed scenarios (the same in every run): minimal replays of two schedule defects
+		if i < 3 || i == 6 {
+			// four fixed scenarios (0, 1, 2 and 6; 3 is a schedule case) (the same in every run): minimal replays of two schedule defects
 			r = vfNewRand(0xc17 + uint64(i))
 			c, scenario = c17Scenario(i)
 		}
@@ -1008,6 +1086,25 @@ func TestVerifC17(t *testing.T) {
 		}
 		if res.unknown > 0 {
 			cs.Fail(idx, "ADD_PROVIDER for a key or to a peer the environment does not know", res.unknown)
+		}
+		if os.Getenv("VERIF_C17_DEBUG") != "" {
+			dbg, _ := os.OpenFile(filepath.Join(vfOutDir(), "c17dbg.txt"), os.O_CREATE|os.O_WRONLY|os.O_APPEND, 0o644)
+			defer dbg.Close()
+			for _, e := range res.events {
+				if e.Kind != "sent" {
+					fmt.Fprintf(dbg, "C17DBG %d %s up=%v keys=%v\n", e.T/1000000, e.Kind, e.Up, e.Keys)
+				}
+			}
+			cnt := map[uint32]int{}
+			for _, e := range res.events {
+				if e.Kind == "sent" && e.Ok {
+					cnt[e.Key]++
+				}
+			}
+			fmt.Fprintf(dbg, "C17DBG sent-per-key %v end=%d\n", cnt, res.endUs/1000000)
+		}
+		if late := c17OfflineCatchUp(res, d2); len(late) > 0 {
+			cs.Fail(idx, "a key given to StartProviding during an outage and kept since was not advertised within one interval (+ allowed delay) after the network came back", late)
 		}
 	}
 	if err := cs.Flush(); err != nil {
